@@ -27,7 +27,7 @@ pub fn check(tier: Tier) -> Check {
         also_rel: false,
         property: "C02",
         level: "exploration",
-        rule: "every server packet type x subsets of the properties legal for it (CONNACK: quick = all subsets of size <=4 (<=3 in every order) and >=14 in identity/reverse/rotated order, thorough = all 2^17 subsets x 3 orders; others: all subsets) x repeated user properties with duplicate keys x every legal reason code x short forms (PUBACK family 2/3/>=4, AUTH 0, DISCONNECT 0/1) x packet identifiers {1,127,128,255,256,16383,16384,65535} and subscription identifiers up to 268435455 (counters preset by the hook) x payload sizes crossing the 512/1024-byte buffer steps x boundary string lengths; read back through ConnectRsp/ConnectError/AuthRsp/SubscribeRsp/UnsubscribeRsp/PublishData/Puback-Pubrec-PubcompError/Disconnected accessors; distinct_nontrivial = distinct packets whose values were read back".into(),
+        rule: "every server packet type x subsets of the properties legal for it (CONNACK: quick = all subsets of size <=4 (<=3 in every order) and >=14 in identity/reverse/rotated order, thorough = all 2^17 subsets x 3 orders; others: all subsets) x repeated user properties with duplicate keys (adjacent and separated by another key) x every legal reason code x short forms (PUBACK family 2/3/>=4, AUTH 0, DISCONNECT 0/1) x packet identifiers {1,127,128,255,256,16383,16384,65535} and subscription identifiers up to 268435455 (counters preset by the hook) x payload sizes crossing the 512/1024-byte buffer steps x boundary string lengths; read back through ConnectRsp/ConnectError/AuthRsp/SubscribeRsp/UnsubscribeRsp/PublishData/Puback-Pubrec-PubcompError/Disconnected accessors; distinct_nontrivial = distinct packets whose values were read back".into(),
         assumptions: vec![
             "only property sets and reason codes the standard allows for the packet type; minimal variable byte integers".into(),
             "a successful CONNACK announcing Subscription Identifiers unavailable is excluded (documented assertion)".into(),
@@ -125,6 +125,9 @@ fn ack_props(k: usize) -> Vec<Prop> {
         3 => vec![Prop::user("k", "1"), Prop::user("k", "2"), Prop::user("z", "")],
         4 => vec![Prop::str(31, ""), Prop::user("k", "1"), Prop::user("k", "1")],
         5 => vec![Prop::user("a", "b"), Prop::str(31, "last")],
+        // the same key again after a different one
+        7 => vec![Prop::user("a", "1"), Prop::user("b", "2"), Prop::user("a", "3")],
+        8 => vec![Prop::user("a", "1"), Prop::user("b", "2"), Prop::str(31, "mid"), Prop::user("b", "4"), Prop::user("a", "3")],
         _ => vec![
             Prop::user("k", "1"),
             Prop::str(31, "middle \u{00e9}"),
@@ -133,7 +136,7 @@ fn ack_props(k: usize) -> Vec<Prop> {
         ],
     }
 }
-const N_ACK_PROPS: usize = 7;
+const N_ACK_PROPS: usize = 9;
 
 pub fn scenario(name: &str, params: &Value) -> Scenario {
     let params = params.clone();
@@ -182,7 +185,14 @@ pub fn scenario(name: &str, params: &Value) -> Scenario {
                 5 => vec![Prop::str(18, &s(l))],
                 6 => vec![Prop::u16(34, [0u16, 1, 256, 65535][chz.choose(4)])],
                 7 => vec![Prop::str(31, &s(l))],
-                8 => (0..chz.choose(4)).map(|i| Prop::user(&s(l.min(50)), &format!("{}{}", s(l), i))).collect(),
+                8 => {
+                    let n = chz.choose(5);
+                    // repeated keys, adjacent and not
+                    let key = s(l.min(50));
+                    (0..n)
+                        .map(|i| Prop::user(if n == 4 && i % 2 == 1 { "other" } else { key.as_str() }, &format!("{}{}", s(l), i)))
+                        .collect()
+                }
                 9 => vec![Prop::u16(19, [0u16, 1, 256, 65535][chz.choose(4)])],
                 10 => vec![Prop::str(26, &s(l))],
                 11 => vec![Prop::str(28, &s(l))],
@@ -338,7 +348,7 @@ pub fn scenario(name: &str, params: &Value) -> Scenario {
                 let retain = chz.choose(2) == 1;
                 let pid = PIDS[chz.choose(if full { PIDS.len() } else { 3 })];
                 let mask = chz.choose(64);
-                let nuser = chz.choose(3);
+                let nuser = chz.choose(4);
                 let sizes = [0usize, 1, 510, 511, 512, 513, 514, 1022, 1023, 1024, 1025, 1026, 2048, 5000];
                 let psize = sizes[chz.choose(if full { sizes.len() } else { 6 })];
                 let mut props = vec![Prop::var(P_SUBSCRIPTION_ID, sub_id)];
@@ -361,7 +371,8 @@ pub fn scenario(name: &str, params: &Value) -> Scenario {
                     props.push(Prop::str(P_CONTENT_TYPE, "application/json"));
                 }
                 for i in 0..nuser {
-                    props.push(Prop::user("dup", &format!("{}", i)));
+                    // with three: dup, other, dup (the same key again after a different one)
+                    props.push(Prop::user(if nuser == 3 && i == 1 { "other" } else { "dup" }, &format!("{}", i)));
                 }
                 let ords = orders(props.len(), if full { 4 } else { 3 });
                 let o = &ords[chz.choose(ords.len())];
@@ -402,8 +413,9 @@ pub fn scenario(name: &str, params: &Value) -> Scenario {
                 if mask & 2 != 0 {
                     p.push(Prop::str(P_SERVER_REFERENCE, "other.example:8883"));
                 }
-                for i in 0..chz.choose(3) {
-                    p.push(Prop::user("k", &format!("{}", i)));
+                let nu = chz.choose(4);
+                for i in 0..nu {
+                    p.push(Prop::user(if nu == 3 && i == 1 { "j" } else { "k" }, &format!("{}", i)));
                 }
                 let ords = orders(p.len(), 4);
                 let o = &ords[chz.choose(ords.len())];
